@@ -1,6 +1,12 @@
-// Package c02: outside the subset goose rejects instead of mistranslating
-// (DESIGN.md §3 C02).
-package c02
+// Package catalog is the catalogue of out-of-subset and look-alike Go
+// constructs shared by the C02 (reject-or-faithful) and C07 (never crashes)
+// checks (DESIGN.md §3 C02).
+package catalog
+
+import (
+	"fmt"
+	"strings"
+)
 
 // Item is one out-of-subset or look-alike construct. It is rendered as a
 // closed entry function
@@ -22,7 +28,8 @@ type Item struct {
 	Known string
 }
 
-var catalogue = []Item{
+// Items is the catalogue.
+var Items = []Item{
 	// ---- operators ----
 	{ID: "op-andnot", Setup: "a := uint64(0xff0f)\n\tb := uint64(0x0ff0)", Core: "r = a &^ b"},
 	{ID: "op-unary-minus", Setup: "a := uint64(5)", Core: "r = -a"},
@@ -144,4 +151,99 @@ var catalogue = []Item{
 	{ID: "user-var-nil", Core: "nil := uint64(3)\n\tr = nil", NoCtx: true},
 	{ID: "user-var-true", Core: "true := uint64(3)\n\tr = true", NoCtx: true},
 	{ID: "user-type-string", Decls: "type byte%N% uint64", Core: "var x byte%N% = 300\n\tr = uint64(x)", NoCtx: true},
+}
+
+// Contexts are the syntactic contexts an item's Core can be placed in.
+var Contexts = []string{"plain", "then-branch", "else-branch", "loop-body", "closure"}
+
+// Use is one use of a catalogue item in a context.
+type Use struct {
+	Item string `json:"item"`
+	Ctx  int    `json:"ctx"`
+}
+
+// ByID finds an item.
+func ByID(id string) *Item {
+	for i := range Items {
+		if Items[i].ID == id {
+			return &Items[i]
+		}
+	}
+	return nil
+}
+
+// Solo reports whether the item redefines a universe name at package level
+// and therefore needs a package of its own.
+func (it *Item) Solo() bool {
+	return strings.HasPrefix(it.ID, "user-func-") || strings.HasPrefix(it.ID, "user-var-")
+}
+
+func indent(s string) string { return strings.ReplaceAll(s, "\n", "\n\t") }
+
+// RenderUse renders the extra declarations and the entry function (named
+// entryC<k>) of one use.
+func RenderUse(u Use, k int) (decls string, entry string, name string) {
+	it := ByID(u.Item)
+	suffix := fmt.Sprintf("x%d", k)
+	sub := func(s string) string { return strings.ReplaceAll(s, "%N%", suffix) }
+	name = fmt.Sprintf("entryC%d", k)
+	core := sub(it.Core)
+	ctx := u.Ctx
+	if it.NoCtx {
+		ctx = 0
+	}
+	switch ctx {
+	case 1:
+		core = "if r == 0 {\n\t\t" + indent(core) + "\n\t}"
+	case 2:
+		core = "if r != 0 {\n\t\tr = 9\n\t} else {\n\t\t" + indent(core) + "\n\t}"
+	case 3:
+		core = "for it := uint64(0); it < 1; it++ {\n\t\t" + indent(core) + "\n\t}"
+	case 4:
+		core = "fn := func() {\n\t\t" + indent(core) + "\n\t}\n\tfn()"
+	}
+	var sb strings.Builder
+	fmt.Fprintf(&sb, "func %s() uint64 {\n\tvar r uint64\n", name)
+	if it.Setup != "" {
+		sb.WriteString("\t" + sub(it.Setup) + "\n")
+	}
+	sb.WriteString("\t" + core + "\n\treturn r\n}\n")
+	return sub(it.Decls), sb.String(), name
+}
+
+// RenderPackage renders a package main consisting of an optional base
+// program and the given uses; it returns the source and entry name -> use.
+func RenderPackage(base string, uses []Use) (string, map[string]Use) {
+	var sb strings.Builder
+	entries := map[string]Use{}
+	needSync := false
+	var body strings.Builder
+	for k, u := range uses {
+		d, e, name := RenderUse(u, k)
+		if strings.Contains(d+e, "sync.") {
+			needSync = true
+		}
+		if d != "" {
+			body.WriteString(d + "\n\n")
+		}
+		body.WriteString(e + "\n")
+		entries[name] = u
+	}
+	if base != "" {
+		if needSync && !strings.Contains(base, "\"sync\"") {
+			if strings.Contains(base, "import (") {
+				base = strings.Replace(base, "import (", "import (\n\t\"sync\"", 1)
+			} else {
+				base = strings.Replace(base, "package main\n", "package main\n\nimport \"sync\"\n", 1)
+			}
+		}
+		sb.WriteString(base + "\n")
+	} else {
+		sb.WriteString("package main\n\n")
+		if needSync {
+			sb.WriteString("import \"sync\"\n\n")
+		}
+	}
+	sb.WriteString(body.String())
+	return sb.String(), entries
 }
